@@ -758,6 +758,8 @@ class Folder:
             lo = self.ev(n.slice.lower, env) if n.slice.lower else None
             hi = self.ev(n.slice.upper, env) if n.slice.upper else None
             st = self.ev(n.slice.step, env) if n.slice.step else None
+            if not all(x is None or (isinstance(x, int) and not isinstance(x, bool)) for x in (lo, hi, st)):
+                raise Refuse("slice with non-integer bounds")
             if isinstance(v, (str, list, tuple)):
                 return v[slice(lo, hi, st)]
             if isinstance(v, Arr):
